@@ -111,6 +111,8 @@ def build_inputs(tier):
     for s in ['x = """\n# not a comment"""', "x = 1 \\\n# c", "x \\\n#", "x \\\n   ", 's = \'\'\'a\n#b\'\'\'', "y = (1,\n# c\n2)", "x = 1\n# c", "x = 1\n   # c", "# only", "if a:\n  b\n  # c", "x = 1\n\\\n# c", "f'''{a}\n# {b}'''"]:
         cases.append(("final-line", s))
         cases.append(("final-line", "p = 0\n" + s))
+    for s in ["\ufeffx = 1\n", "\ufeff# c\ny = 2\n", "\ufeff", "x = '\ufeff'\n"]:
+        cases.append(("bom", s))
     for i in range(300 * N):
         g = pyprog.gen_program(r, fstrings=True, maxdepth=3, nstmts=r.randint(1, 3))
         if g:
